@@ -306,6 +306,9 @@ def evaluate(ctx, spec, src, run, sig, x, ref, weight_bits, act_bits, per_channe
 def run_case(ctx, case, rng):
   spec = models.rand_model(rng, n_sub=1, n_ops=int(rng.integers(1, 7)), allow_unsupported=False, export_consumed_p=0.1) \
       if rng.random() < 0.85 else models.t_chain(rng)
+  if case % 16 == 7:
+    spec = models.t_tied_bias(rng)      # one bias constant read by two operators with different input ranges (refused today: skipped)
+    ctx.count('tied_bias_models')
   if case % 256 == 11:
     spec = models.t_huge_activation(rng)     # directed: 2^21-element activations with their extremes at odd positions
     ctx.count('huge_activation_cases')
